@@ -224,3 +224,25 @@ Example C09_add_expr_example :
   fst (expr_run (Some 12)) = Ok 11%Z ∧ trig (snd (expr_run (Some 12))) = Some 1.
 Proof. exact add_expr_dynamic_example. Qed.
 Print Assumptions C09_add_expr_example.
+
+(** the hypotheses of [C09_add_expr_dynamic] hold in the states of the
+    example, [s <| trig := k |>] for every value [k] of the forced trigger:
+    the manager is well formed ([Inv]: it is the state after the history
+    [dyn_history] of allowed calls, [Proofs/Dynamic3.v] [run_goodD_from_new]),
+    its counters are exact for the ledger [dyn_ledger] (one external reference
+    on the terminal and on each of the nodes 2..7 and 10), no context is
+    active, the table is unbounded, the lexemes lex and parse to [expr_tree],
+    which is accepted, and its only [@n] leaf, 10, is held *)
+Theorem C09_dyn_ledger_def n :
+  dyn_ledger n = if bool_decide (n ∈ [1; 2; 3; 4; 5; 6; 7; 10]%positive) then 1 else 0.
+Proof. exact eq_refl. Qed.
+Print Assumptions C09_dyn_ledger_def.
+
+Example C09_add_expr_example_hypotheses :
+  let s := world_get (run_ops dyn_history) 0 in
+  ∀ k : option nat, let sk := s <| trig := k |> in
+  Inv sk ∧ Counts sk dyn_ledger ∧ rctx sk = false ∧ max_nodes sk = None ∧
+  (lex expr_sp ≫= parse code_prec) = Some expr_tree ∧
+  ok_ast sk expr_tree ∧ refs_in (heldn dyn_ledger) expr_tree.
+Proof. exact add_expr_dynamic_example_hypotheses. Qed.
+Print Assumptions C09_add_expr_example_hypotheses.
